@@ -34,18 +34,21 @@ let parse_msg (s : string) : message =
   | _ -> failwith "bad-msg"
 
 type orec = { o_status : run_status; o_gas : n; o_refund : n; o_logs : n; o_suicided : n list;
-              o_delta : (n * z * z * n * n) list }
+              o_delta : (n * z * z * n * n) list; o_created : n list; o_dirtied : n list }
 
 let parse_oracle (s : string) : orec option =
   if s = "-" then None else
-  match split_on ':' s with
-  | [st; g; r; l; su; d] ->
+  let alist x = if x = "-" then [] else List.map n_of_string (split_on '+' x) in
+  let mk st g r l su d cr di =
     let status = (match st with "ok" -> RunOk | "revert" -> RunRevert | "fail" -> RunFail | "csoog" -> RunCodeStoreOOG | _ -> failwith "bad-status") in
-    let suicided = if su = "-" then [] else List.map n_of_string (split_on '+' su) in
     let delta = if d = "-" then [] else List.map (fun e -> match split_on '/' e with
       | [a; db; dn; c; st] -> (n_of_string a, z_of_string db, z_of_string dn, n_of_string c, n_of_string st)
       | _ -> failwith "bad-delta") (split_on '+' d) in
-    Some { o_status = status; o_gas = n_of_string g; o_refund = n_of_string r; o_logs = n_of_string l; o_suicided = suicided; o_delta = delta }
+    Some { o_status = status; o_gas = n_of_string g; o_refund = n_of_string r; o_logs = n_of_string l; o_suicided = alist su;
+           o_delta = delta; o_created = alist cr; o_dirtied = alist di } in
+  match split_on ':' s with
+  | [st; g; r; l; su; d] -> mk st g r l su d "-" "-"
+  | [st; g; r; l; su; d; cr; di] -> mk st g r l su d cr di
   | _ -> failwith "bad-oracle"
 
 let z_of_n (x : n) : z = match x with N0 -> Z0 | Npos p -> Zpos p
@@ -64,19 +67,35 @@ let make_runner (table : orec option array) : runner =
     | Some o -> { ro_status = o.o_status; ro_gas_left = o.o_gas; ro_refund = o.o_refund; ro_state = apply_delta s o.o_delta;
                   ro_logs = o.o_logs; ro_suicided = o.o_suicided }
 
-(* canonical dump: entries that are not the empty account, first binding per address, sorted by address *)
+let make_erunner (table : orec option array) : erunner =
+  fun i ->
+    let i = int_of_n i in
+    if i >= Array.length table then { eo_created = []; eo_dirtied = [] } else
+    match table.(i) with
+    | None -> { eo_created = []; eo_dirtied = [] }
+    | Some o -> { eo_created = o.o_created; eo_dirtied = o.o_dirtied }
+
+(* canonical dumps.  Exact: every existing account (also empty ones), sorted by address, plus a
+   `ghosts=` suffix if the value state holds content outside the existence set.  Loose: the
+   non-empty accounts only (used where the request carries no existence information). *)
 let is_empty (a : account) = (a.bal = Z0 && a.nonce = N0 && a.code = N0 && a.stor = N0)
-let dump_state (s : state) : string =
-  let seen = Hashtbl.create 16 in
-  let l = List.filter_map (fun (a, acc) ->
-    let k = hex_of_n a in
-    if Hashtbl.mem seen k then None else begin
-      Hashtbl.add seen k ();
-      if is_empty acc then None else Some (k, acc) end) s in
-  let cmp (a, _) (b, _) = let la = String.length a and lb = String.length b in if la <> lb then compare la lb else compare a b in
-  let l = List.sort cmp l in
+let cmp_hex a b = let la = String.length a and lb = String.length b in if la <> lb then compare la lb else compare a b
+let render_entries (l : (string * account) list) : string =
+  let l = List.sort (fun (a, _) (b, _) -> cmp_hex a b) l in
   if l = [] then "-" else
   String.concat "," (List.map (fun (k, acc) -> k ^ ":" ^ hex_of_z acc.bal ^ ":" ^ hex_of_n acc.nonce ^ ":" ^ hex_of_n acc.code ^ ":" ^ hex_of_n acc.stor) l)
+let dedup (s : state) : (string * account) list =
+  let seen = Hashtbl.create 16 in
+  List.filter_map (fun (a, acc) ->
+    let k = hex_of_n a in
+    if Hashtbl.mem seen k then None else (Hashtbl.add seen k (); Some (k, acc))) s
+let dump_state (s : state) : string = render_entries (List.filter (fun (_, acc) -> not (is_empty acc)) (dedup s))
+let dump_exact (s : state) (es : estate) : string =
+  let base = render_entries (dedup (materialise s es)) in
+  match ghosts s es with
+  | [] -> base
+  | g -> base ^ " ghosts=" ^ String.concat "+" (List.map hex_of_n g)
+let estate_of (s : state) : estate = { es_exist = List.map fst s; es_dirty = [] }
 
 let err_name = function
   | ErrNonceTooHigh -> "nonce-too-high" | ErrNonceTooLow -> "nonce-too-low"
@@ -105,8 +124,12 @@ let handle (toks : string list) : string =
   | ["createaddr"; a; n] -> hex_of_n (create_address (n_of_string a) (n_of_string n))
   | ["refund"; i; g; c] -> hex_of_n (refund_amount (n_of_string i) (n_of_string g) (n_of_string c))
   | ["tx"; cfg; num; coinbase; pool; cum; st; msg; orc] ->
-    let run = make_runner [| parse_oracle orc |] in
-    (match apply_transaction (parse_cfg cfg) (n_of_string num) (n_of_string coinbase) run N0 (parse_state st)
+    let table = [| parse_oracle orc |] in
+    let run = make_runner table in
+    let s0 = parse_state st in
+    let es = apply_transaction_e (parse_cfg cfg) (n_of_string num) (n_of_string coinbase) run (make_erunner table) N0 s0
+               (n_of_string pool) (n_of_string cum) (parse_msg msg) (estate_of s0) in
+    (match apply_transaction (parse_cfg cfg) (n_of_string num) (n_of_string coinbase) run N0 s0
              (n_of_string pool) (n_of_string cum) (parse_msg msg) with
      | TxErr e -> "err " ^ err_name e
      | TxPanic -> "panic"
@@ -114,18 +137,20 @@ let handle (toks : string list) : string =
        let t = r.x_tdb in
        "ok receipt=" ^ render_receipt r.x_receipt ^ " pool=" ^ hex_of_n r.x_pool ^ " failed=" ^ b01 t.t_failed
        ^ " intrinsic=" ^ hex_of_n t.t_intrinsic ^ " gasleft=" ^ hex_of_n t.t_gas_left ^ " refund=" ^ hex_of_n t.t_refund
-       ^ " state=" ^ dump_state r.x_state)
+       ^ " state=" ^ dump_exact r.x_state es)
   | ["block"; cfg; dealloc; num; coinbase; gaslimit; gasused; st; txs; uncles; orcs] ->
     let txl = if txs = "-" then [] else List.map parse_msg (split_on ';' txs) in
     let table = Array.of_list (if orcs = "-" then [] else List.map parse_oracle (split_on ';' orcs)) in
     let h = { h_number = n_of_string num; h_coinbase = n_of_string coinbase; h_gas_limit = n_of_string gaslimit; h_gas_used = n_of_string gasused } in
-    (match process (parse_cfg cfg) (parse_addrs dealloc) (make_runner table) (parse_state st) h txl (parse_uncles uncles) with
+    let s0 = parse_state st in
+    let es = process_e (parse_cfg cfg) (parse_addrs dealloc) (make_runner table) (make_erunner table) s0 h txl (parse_uncles uncles) (estate_of s0) in
+    (match process (parse_cfg cfg) (parse_addrs dealloc) (make_runner table) s0 h txl (parse_uncles uncles) with
      | BlockErr (i, e) -> "err " ^ string_of_int (int_of_n i) ^ " " ^ err_name e
      | BlockPanic -> "panic"
      | BlockOk (s, rs, used) ->
        "ok used=" ^ hex_of_n used ^ " valid=" ^ b01 (validate_gas_used h used)
        ^ " receipts=" ^ (if rs = [] then "-" else String.concat ";" (List.map render_receipt rs))
-       ^ " supply=" ^ hex_of_z (supply s) ^ " state=" ^ dump_state s)
+       ^ " supply=" ^ hex_of_z (supply s) ^ " state=" ^ dump_exact s es)
   | ["rewards"; num; coinbase; uncles; st] ->
     let h = { h_number = n_of_string num; h_coinbase = n_of_string coinbase; h_gas_limit = N0; h_gas_used = N0 } in
     let us = parse_uncles uncles in
@@ -133,6 +158,16 @@ let handle (toks : string list) : string =
     let s = accumulate_rewards h us s0 in
     "supply_before=" ^ hex_of_z (supply s0) ^ " supply_after=" ^ hex_of_z (supply s) ^ " issuance=" ^ hex_of_z (issuance h.h_number us)
     ^ " state=" ^ dump_state s
+  | ["rewards_e"; cfg; num; coinbase; uncles; st] ->
+    (* engine.Finalize: accumulateRewards then IntermediateRoot(IsEIP158) *)
+    let c = parse_cfg cfg in
+    let h = { h_number = n_of_string num; h_coinbase = n_of_string coinbase; h_gas_limit = N0; h_gas_used = N0 } in
+    let us = parse_uncles uncles in
+    let s0 = parse_state st in
+    let s = accumulate_rewards h us s0 in
+    let es = finalise_e (is_forked c.c_eip158 h.h_number) [] s (accumulate_rewards_e h us s0 (estate_of s0)) in
+    "supply_before=" ^ hex_of_z (supply s0) ^ " supply_after=" ^ hex_of_z (supply s) ^ " issuance=" ^ hex_of_z (issuance h.h_number us)
+    ^ " state=" ^ dump_exact s es
   | ["hf4"; dealloc; st] ->
     let s0 = parse_state st in
     let s = apply_hf4 (parse_addrs dealloc) s0 in
